@@ -351,6 +351,7 @@ func c05(r *core.Run) {
 
 	r.Rule("M1", "field table: every field of the decoded payload struct is copied exactly once into one request field, each such field is returned by exactly one exported accessor, the map is injective; resource name/params/group/handler/listeners come from the routed Match and the subject; payload JSON keys agree with the client package's Request", 15)
 	r.Rule("M2", "payload decoding: the payload struct is filled by encoding/json.Unmarshal - which validates the whole input, unlike a streaming Decoder that stops after the first value - applied to the message's Data bytes, and its error edge replies with an error before dispatch ('payload not JSON' -> system.internalError)", 2)
+	r.Rule("M5", "only the service's own names are routed (shared with C06.R7): the remainder of a name after the mux path is taken only where the byte following the path was compared with the token separator; with a bare prefix test a request for 'testmodel' or 'testing.info' invokes the handlers of 'test.model' / 'test.$kind.info' - with a path parameter that is not a token of the requested name - instead of being answered system.notFound", 1)
 	r.Rule("M4", "the handler of the selected pattern (shared with C06.R1): the trie matcher tries literal, placeholder, wildcard in that order and a failed recursive match falls through to the next candidate - its result is branched on, never returned unconditionally; otherwise a name that follows a more specific branch and dead-ends there gets system.notFound although a registered pattern matches it, and no handler is invoked", 4)
 	r.Rule("M3", "path parameters as sent (shared with C06.R4): the match record's node, mount index and params are written together at each accept site and rebased with that same mount index, and the Match handed to request processing takes its params from that record; a mount index that survives backtracking shifts every path parameter", 6)
 	r.Rule("M4", "routing input is private to a lookup (shared with C06.R6): no function reachable from Mux.GetHandler writes Mux / node / handler state or appends into a slice held there; lookups run concurrently (listener, With, Resource), so a shared scratch buffer would route a request with another name's tokens and hand the handler foreign path parameters", 1)
@@ -364,6 +365,7 @@ func c05(r *core.Run) {
 	root := p.FuncsOfPkg("")
 	if ro := resolveMuxRolesFor(r, "M3"); ro != nil {
 		c06Specificity(r, "M4", ro)
+		c06PrefixBoundary(r, "M5")
 		c06MatchAssembly(r, "M3", root, ro)
 	}
 	c06PureLookup(r, "M4")
